@@ -180,11 +180,12 @@ def make_def(U, rng, idx):
     # instantiated with zero-copy types or deep types according to the impls available; we
     # instantiate them with any type (Vec<A> picks its impl from A::Copy).
     for p in tparams:
-        # (inline bounds on a field-typed parameter of an *enum* do not compile: boundary probe of C05)
-        if usage[p] != "phantom" and not (kind == "enum" and usage[p] == "bare") and rng.random() < 0.25:
+        # (bounds on a field-typed parameter of an enum, and where-clauses on field-typed parameters,
+        # compile since the fix c64641c of the derive)
+        if usage[p] != "phantom" and rng.random() < 0.25:
             bounds[p] = rng.choice(["Clone", "core::fmt::Debug", "Clone + core::fmt::Debug"])
-        if usage[p] == "inside" and rng.random() < 0.3 and p not in bounds:
-            where.append("%s: Clone" % p)
+        if usage[p] != "phantom" and rng.random() < 0.3 and p not in bounds:
+            where.append("%s: %s" % (p, rng.choice(["Clone", "core::fmt::Debug + Clone"])))
     if tparams and not cparams and rng.random() < 0.25:
         p = tparams[-1]
         defaults[p] = ("prim", rng.choice(["u32", "u64", "i16"])) if usage[p] != "inside" or True else ("prim", "u8")
